@@ -19,9 +19,17 @@ RULE = ("cases = (tensor of depth 2-4 with int coordinates [or tuple coordinates
         "and absent/empty sub-fibers, every applicable pipeline; thorough adds every depth-3 tree over 2x2x2 "
         "coordinates with leaf states {absent, explicit default, 1} (sampled pipelines); random: depth 2-4, "
         "explicit defaults, empty and all-default sub-fibers, empty tensors, all permutations, all "
-        "(depth, levels, style). non-trivial = the input tensor has at least one non-default point")
+        "(depth, levels, style); 3-way collisions of sub-fibers (three upper coordinates onto one merged "
+        "coordinate, absolute and relative) under the non-associative merge functions; collision-rich random "
+        "tensors; compositions flatten(k', levels, tuple|pair) ; swap(k) / swizzle on the tensor that now "
+        "carries tuple coordinates. non-trivial = the input tensor has at least one non-default point")
 
 STYLES_INJ = ["tuple", "pair"]
+# merge functions: sum (the default), max, and two that are neither associative nor decomposable
+# (count of the colliding points; first value * 10 + count, which also depends on the order)
+MFS = ("sum", "max", "count", "mix")
+_MF = {"sum": None, "max": (lambda ps: max(ps)), "count": (lambda ps: len(ps)),
+       "mix": (lambda ps: ps[0] * 10 + len(ps))}
 
 
 # ---------------------------------------------------------------------------------------
@@ -46,12 +54,31 @@ def _pipelines(D, rng=None, n=3):
             out.append([{"op": "merge", "k": k, "levels": L, "style": "tuple", "mf": "sum"}])
             for st in ("absolute", "relative"):
                 out.append([{"op": "flatten", "k": k, "levels": L, "style": st}])
-                for mf in ("sum", "max"):
+                for mf in MFS:
                     out.append([{"op": "merge", "k": k, "levels": L, "style": st, "mf": mf}])
     for k in range(D):
         for kind, step in (("uniform", 2), ("uniform", 1), ("equal", 2)):
             out.append([{"op": "split", "kind": kind, "step": step, "k": k},
                         {"op": "flatten", "k": k, "levels": 1, "style": "absolute"}])
+    out += _compositions(D)
+    return out
+
+
+def _compositions(D):
+    """a transform applied to a tensor that already carries tuple coordinates from an earlier flatten"""
+    out = []
+    for kf in range(D - 1):
+        for L in range(1, D - kf):
+            D2 = D - L                       # ranks after the flatten; rank kf holds (L+1)-tuples
+            for st in STYLES_INJ:
+                fl = {"op": "flatten", "k": kf, "levels": L, "style": st}
+                for k in (kf - 1, kf):       # swap the tuple rank with its upper / lower neighbour
+                    if 0 <= k and k + 1 <= D2 - 1:
+                        out.append([fl, {"op": "swap", "k": k}])
+                if D2 >= 2 and st == "tuple":
+                    perm = list(range(D2))
+                    perm[kf], perm[(kf + 1) % D2] = perm[(kf + 1) % D2], perm[kf]
+                    out.append([fl, {"op": "swizzle", "perm": perm}])
     return out
 
 
@@ -148,6 +175,37 @@ def gen(seed, tier):
         pipe = rng.choice(pipes[D])
         shape = [n] * D if (rng.random() < 0.5 or pipe[0].get("style") == "linear") else None
         yield _case(t, D, dflt, pipe, shape=shape)
+    # --- many-way collisions of sub-fibers under non-associative merge functions
+    # ranks A,B,C: three A coordinates whose single B coordinate maps to the SAME merged coordinate
+    # (absolute: B = 0; relative: A + B = 2), every C fiber over 2 coordinates x {absent, 1, 2}
+    subs = [s for s in H.all_leaf_fibers(2, [1, 2])]
+    rng2 = random.Random(seed + 7919)
+    combos = list(itertools.product(subs, repeat=3))
+    if tier == "quick":
+        combos = rng2.sample(combos, 250)
+    for trio in combos:
+        for style, bs in (("absolute", (0, 0, 0)), ("relative", (2, 1, 0))):
+            t = [[a, [[bs[a], trio[a]]]] for a in range(3)]
+            for mf in ("count", "mix"):
+                yield _case(t, 3, 0, [{"op": "merge", "k": 0, "levels": 1, "style": style, "mf": mf}])
+    # --- collision-rich random tensors (few absent elements), merges above payload fibers and
+    #     compositions with an earlier flatten
+    comps = {D: _compositions(D) for D in (3, 4)}
+    for i in range(500 if tier == "quick" else 20000):
+        D = rng2.choice([3, 3, 4])
+        dflt = rng2.choice([0, 0, 7])
+        n = rng2.choice([3, 4]) if D == 3 else 3
+        pool = (1, 2, -3, 5) if dflt == 0 else (1, 2, -3, 0)
+        t = H.gen_tree(rng2, D, n, pool, dflt, 0.15, 0.08, 0.08, 0.04)
+        if i % 2 == 0:
+            k = rng2.randrange(D - 2)
+            L = rng2.choice([1, 1, 2]) if D - k - 2 >= 1 else 1
+            L = min(L, D - k - 2)            # at least one rank of payload fibers stays below
+            pipe = [{"op": "merge", "k": k, "levels": max(L, 1), "style": rng2.choice(["absolute", "relative"]),
+                     "mf": rng2.choice(["count", "mix", "count", "mix", "sum", "max"])}]
+        else:
+            pipe = rng2.choice(comps[D])
+        yield _case(t, D, dflt, pipe, shape=([n] * D if rng2.random() < 0.3 else None))
 
 
 # ---------------------------------------------------------------------------------------
@@ -204,7 +262,7 @@ def _apply(t, op):
     if o == "flatten":
         return t.flattenRanks(depth=op["k"], levels=op["levels"], coord_style=op["style"])
     if o == "merge":
-        mf = None if op.get("mf", "sum") == "sum" else (lambda ps: max(ps))
+        mf = _MF[op.get("mf", "sum")]
         return t.mergeRanks(depth=op["k"], levels=op["levels"], coord_style=op["style"], merge_fn=mf)
     if o == "unflatten":
         return t.unflattenRanks(depth=op["k"], levels=op["levels"])
@@ -240,6 +298,9 @@ def run(case):
             st["shape"] = shape
         if op["op"] == "unflatten":
             st["declared"] = cur.getShape(authoritative=True) is not None
+        if op["op"] == "swizzle":
+            ids_ = cur.getRankIds()
+            st["ids_mixed"] = any(isinstance(x, list) for x in ids_) and any(not isinstance(x, list) for x in ids_)
         try:
             nxt = _apply(cur, op)
             out = {"tree": H.snapshot(nxt.getRoot()), "dflt": _default_of(nxt), "depth": len(nxt.getRankIds())}
@@ -291,6 +352,8 @@ def signature(case, verdict, failed):
     tags = set(verdict.get("tags", []))
     fs = _failing_stage(case)
     if failed == ["spec"] and agree:
+        if fs is not None and fs["op"] == "swizzle" and fs["out"]["err"] == "ERR:TypeError" and "mixedRankIds" in tags:
+            return "swizzle:flattened-rank-ids:TypeError"
         if fs is not None and fs["op"] == "unflatten" and fs["out"]["err"] == "ERR:TypeError" \
                 and "undeclaredEmptyRank" in tags:
             return "unflatten:empty-rank:undeclared-shape:TypeError"
